@@ -36,10 +36,10 @@ type storeSubject struct {
 	blk func() uint64 // the block number of the next keep-alive (a chain head may also go backwards)
 }
 
-func (s *storeSubject) idOf(i int) string      { return s.ids[i] }
-func (s *storeSubject) unknownID(k int) string { return fmt.Sprintf("unknown%d", k) }
+func (s *storeSubject) idOf(i int) string        { return s.ids[i] }
+func (s *storeSubject) unknownID(k int) string   { return fmt.Sprintf("unknown%d", k) }
 func (s *storeSubject) manyUnknown(k int) string { return fmt.Sprintf("stranger%d", k) }
-func (s *storeSubject) close()                 { s.st.Close() }
+func (s *storeSubject) close()                   { s.st.Close() }
 func (s *storeSubject) register(i int) error {
 	return s.st.SetNode(store.Node{ID: store.NodeID(s.ids[i]), LastSeen: time.Now(), IsHost: i != 0, Kind: "geth", URI: "enode://" + s.ids[i] + "@192.0.2.1:30303"})
 }
@@ -71,10 +71,10 @@ type poolSubject struct {
 	blk func() uint64
 }
 
-func (p *poolSubject) idOf(i int) string      { return p.s.agents[i].id.nodeID }
-func (p *poolSubject) unknownID(k int) string { return nodeIdent(8 + k%2).nodeID }
+func (p *poolSubject) idOf(i int) string        { return p.s.agents[i].id.nodeID }
+func (p *poolSubject) unknownID(k int) string   { return nodeIdent(8 + k%2).nodeID }
 func (p *poolSubject) manyUnknown(k int) string { return hexID(5000 + k) }
-func (p *poolSubject) close()                 { p.s.close() }
+func (p *poolSubject) close()                   { p.s.close() }
 func (p *poolSubject) register(i int) error {
 	return p.s.connect(i, p.s.openConn(i, ""), i != 0, "geth", "")
 }
